@@ -178,12 +178,16 @@ func verifC23RandomRun(res *verifkit.Result, rnd *rand.Rand, run int, allowReset
 	}
 	done := make(chan struct{})
 	go func() { wg.Wait(); close(done) }()
-	select {
-	case <-done:
-	case <-time.After(e.deadline):
-		// workers are stuck inside the cache: quiesce reports which requests
-	}
-	judge := e.quiesce()
+	finished := e.waitQuiet(func() bool {
+		select {
+		case <-done:
+			return true
+		default:
+			return false
+		}
+	})
+	// not finished: workers are stuck inside the cache, quiesce reports which requests
+	judge := e.quiesce() && finished
 	gates.Wait()
 	if judge {
 		if cfg.Limits == "none" {
